@@ -80,6 +80,8 @@ func runHistory(r *core.Run, cid string, L int) {
 			m.badAck()
 		case x < 95:
 			m.keeperWriteAck()
+		case x < 98:
+			m.ackUnderChangedRegistry()
 		default:
 			s.W.Roll(s.W.Nodes[rng.Intn(len(s.W.Nodes))])
 		}
@@ -207,6 +209,10 @@ func (m *mon) deliverAck(p *pkt.Pkt, msg *packettypes.MsgAcknowledgement, signer
 			m.r.Count(fmt.Sprintf("callback_invocations_on_accepted_ack=%s", cb), 1)
 			if cb.Cmp(big.NewInt(1)) > 0 {
 				m.r.Violation(m.cid, "ack/sender-callback-ran-more-than-once", map[string]interface{}{"packet": p.Key(), "count": cb})
+			} else if cb.Sign() == 0 {
+				// the callback is the probe counter (it cannot fail): an accepted acknowledgement that did not run it
+				// processed the packet only in part
+				m.r.Violation(m.cid, "ack/accepted-without-running-the-sender-callback", map[string]interface{}{"packet": p.Key(), "variant": variant, "log": s.Log})
 			}
 		} else if cb.Sign() != 0 {
 			m.r.Violation(m.cid, "ack/callback-ran-for-packet-without-callback", map[string]interface{}{"packet": p.Key(), "count": cb})
@@ -220,6 +226,34 @@ func (m *mon) deliverAck(p *pkt.Pkt, msg *packettypes.MsgAcknowledgement, signer
 		m.r.Violation(m.cid, "ack/rejected-but-state-changed/"+variant, map[string]interface{}{"packet": p.Key(), "diff": core.TrimDiff(o.Diff, 8), "log": s.Log})
 	}
 	m.afterTx(p.SrcN, o, nil, nil)
+}
+
+// ackUnderChangedRegistry: the relayer registry of the sending chain changes between the receive and the
+// acknowledgement, so that the relayer named in the (genuine, provable) acknowledgement is not registered there for
+// the moment. Whatever the chain does with such a message it must do as a whole: accepted with all effects (status,
+// fee, callback) or rejected with no state change - deliverAck judges both. Afterwards the registry is restored and the
+// acknowledgement can still be delivered by a later honest step.
+func (m *mon) ackUnderChangedRegistry() {
+	s := m.s
+	pa := s.PendingAck()
+	if len(pa) == 0 {
+		return
+	}
+	p := pa[s.Rng.Intn(len(pa))]
+	rel := s.RandRelayer()
+	min := s.ProvableHeight(p.DstN, p.RecvBlock)
+	ph, err := s.EnsureClient(p.SrcN, p.DstN, rel, min)
+	if err != nil {
+		return
+	}
+	msg, err := s.AckMsg(p, p.AckWritten, ph, rel)
+	if err != nil {
+		return
+	}
+	s.ScrambleRelayers(p.SrcN, p.Dst)
+	m.r.Count("acks_under_changed_registry", 1)
+	m.deliverAck(p, msg, rel, "honest-while-relayer-unregistered", false)
+	s.RestoreRelayers(p.SrcN)
 }
 
 func (m *mon) honestAck() {
